@@ -32,7 +32,7 @@ ASSUMPTIONS = [
     "'as far as its own fields and validators go'); the soundness clause only ever demands what both readings demand",
     "items of configuration lists are judged when loaded or inserted (the statement), not by a later validate()",
 ]
-REQUIRED = ["load:returned", "load:raised", "flag:off", "flag:on", "has:schema-validator", "has:required", "validate:raises",
+REQUIRED = ["has:cross-validator", "load:returned", "load:raised", "flag:off", "flag:on", "has:schema-validator", "has:required", "validate:raises",
             "validate:returns", "item:breach", "item:ok", "route:load_tree", "route:loads"]
 LEVEL_TEXT = (
     "Generated schemas/validators/flags/trees with an independent ok(state) predicate and a validator invocation "
@@ -56,12 +56,17 @@ def budget(tier):
 
 
 def _decorate(node, draws, counter):
-    """Add schema-level validators to containers (deterministically from a drawn list)."""
+    """Add schema-level validators to containers (deterministically from a drawn list) and a cross-field field
+    validator to the first pair of unconstrained-enough integer siblings of every configuration."""
     kids = []
     for c in node["children"]:
         if c["kind"] in ("schema", "configtype", "schemalist"):
             c = _decorate(c, draws, counter)
         kids.append(c)
+    ints = [i for i, c in enumerate(kids) if c["kind"] in ("int", "port") and not c.get("validator")]
+    if len(ints) >= 2:
+        a, b = ints[0], ints[1]
+        kids[a] = dict(kids[a], validator="v_cross", cross_with=kids[b]["key"])
     d = draws[counter[0] % len(draws)]
     counter[0] += 1
     out = dict(node, children=kids)
@@ -124,6 +129,11 @@ def breaches(world, cfg, node, path=(), out=None, enabled_cfgs=None):
             continue
         if c.get("req") and (v is None or (kind in EMPTY_KINDS + ("schemalist",) and not v)):
             out.append("required %s is unset/empty" % ".".join(path + (key,)))
+        if c.get("validator") and v is not None and kind not in ("schemalist",):
+            try:
+                refmodel.run_validator(c["validator"], v, cfg, c)
+            except ValueError as exc:
+                out.append("field validator %s of %s fails on the held value: %s" % (c["validator"], ".".join(path + (key,)), exc))
     for sv in node.get("svalidators") or []:
         try:
             refmodel.run_schema_validator(cc, sv, cfg)
@@ -181,6 +191,8 @@ def run_case(case, R):
         R.label("has:schema-validator")
     if _has(spec, lambda c, d: bool(c.get("req"))):
         R.label("has:required")
+    if _has(spec, lambda c, d: c.get("validator") == "v_cross"):
+        R.label("has:cross-validator")
     if has_flag and deep:
         R.nontrivial = True
     with sandbox.CaseDir() as d:
